@@ -64,10 +64,11 @@ def commit_rule(repo: Repo, rep: Report, rid: str) -> None:
     su = repo.func("types/structure.py", "StructureMetaType.start_update")
     trys = [t for t in walk_body(su.node.body) if isinstance(t, ast.Try)]
     ok = len(trys) == 1 and any(isinstance(c, ast.Call) and call_name(c) == "commit" for s in trys[0].finalbody for c in ast.walk(s)) and \
-        any(isinstance(s, ast.Assign) and "__updating__" in norm(s.targets[0]) and const_value(s.value) is False for s in trys[0].finalbody) and \
+        any(isinstance(s, ast.Assign) and "__updating__" in norm(s.targets[0]) and is_const(s.value) and const_value(s.value) is False for s in trys[0].finalbody) and \
         any(isinstance(y, ast.Yield) for s in trys[0].body for y in ast.walk(s))
     rep.check(ok, rid, f"{su.key}:finally", "yield inside try; finally commits and clears the flag",
-              "start_update no longer commits (and clears __updating__) in a finally block: fields added in the batch would never be committed", su.loc())
+              "start_update no longer commits and clears __updating__ (to the constant False) unconditionally in a finally block: after some history of update "
+              "blocks (overlapping blocks on one class, a block left through an exception) the flag stays set and fields added later are never committed", su.loc())
     af = repo.func("types/structure.py", "StructureMetaType.add_field")
     mk = [c for c in walk_body(af.node.body) if isinstance(c, ast.Call) and call_name(c) == "Field"]
     rep.check(len(mk) == 1 and [norm(a) for a in mk[0].args] == af.params[1:3] and {k.arg: norm(k.value) for k in mk[0].keywords} == {"bits": "bits", "offset": "offset"},
@@ -362,6 +363,137 @@ def add_field_fold_rule(repo: Repo, rep: Report, rid: str) -> None:
                "sequence that a one-piece definition accepts cannot be built step by step") if bad else "", fi.loc())
 
 
+
+def accessor_fold_rule(repo: Repo, rep: Report, rid: str) -> None:
+    rep.rule(rid, "accessors of anonymous members, folded: the properties _update_fields installs for the members of anonymous structures are called on a "
+                  "model instance with two anonymous structures - each getter reads, and each setter writes, its own member of its own anonymous "
+                  "structure and nothing else (closures over loop variables are interpreted with Python's late binding)")
+    fi = repo.func("types/structure.py", "StructureMetaType._update_fields")
+    uf = update_fields_fold(repo)
+    if uf is None:
+        rep.ok(rid, f"{fi.key}:accessors", "not foldable with the evaluator's whitelist: the late-binding rule decides alone", fi.loc(), nontrivial=False)
+        return
+    bad = [b_ for b_ in uf["bad"] if "accessor" in b_[1] or b_[1].startswith("assigning")]
+    rep.check(not bad, rid, f"{fi.key}:accessors", f"folded over {uf['cases']} cases", f"_update_fields for '{bad[0][0] if bad else ''}': {bad[0][1] if bad else ''}"
+              f"{(', expected ' + bad[0][2]) if bad and bad[0][2] else ''}", fi.loc())
+
+
+def late_binding_rule(repo: Repo, rep: Report, rid: str, modules: tuple[str, ...] = ("types/structure.py", "types/base.py", "types/enum.py", "cstruct.py", "parser.py")) -> None:
+    rep.rule(rid, "no closure over a loop variable outlives its iteration: a nested function / lambda defined inside a loop that reads, as a free "
+                  "variable, a name bound by that loop (target or assignment in the loop body) is not stored, returned or handed to a call - "
+                  "Python looks the name up when the closure runs, so every stored closure would see the value of the last iteration")
+    n = 0
+    for fi in repo.all_functions():
+        if fi.module.rel not in modules:
+            continue
+        for loop in walk_body(fi.node.body):
+            if not isinstance(loop, (ast.For, ast.While)):
+                continue
+            bound = {x.id for st in loop.body for x in ast.walk(st) if isinstance(x, ast.Name) and isinstance(x.ctx, ast.Store)}
+            if isinstance(loop, ast.For):
+                bound |= {x.id for x in ast.walk(loop.target) if isinstance(x, ast.Name)}
+            for st in loop.body:
+                for inner in ast.walk(st):
+                    if not isinstance(inner, (ast.FunctionDef, ast.Lambda)):
+                        continue
+                    n += 1
+                    params = {a.arg for a in ast.walk(inner.args) if isinstance(a, ast.arg)}
+                    body = inner.body if isinstance(inner.body, list) else [inner.body]
+                    own = {x.id for b in body for x in ast.walk(b) if isinstance(x, ast.Name) and isinstance(x.ctx, ast.Store)}
+                    free = {x.id for b in body for x in ast.walk(b) if isinstance(x, ast.Name) and isinstance(x.ctx, ast.Load)} - params - own
+                    # names bound in the closure's own nested-def chain inside the loop (the def statement itself binds its name in the loop: that is the closure)
+                    late = sorted((free & bound) - ({inner.name} if isinstance(inner, ast.FunctionDef) else set()))
+                    # a lambda that is consumed where it stands (key= of sorted / max / min, argument of map / filter / any / all) does not outlive the iteration
+                    immediate = False
+                    if isinstance(inner, ast.Lambda):
+                        for c in ast.walk(st):
+                            if isinstance(c, ast.Call) and call_name(c) in ("sorted", "max", "min", "map", "filter", "any", "all", "sum", "next") and \
+                                    any(inner is a_ or any(inner is y for y in ast.walk(a_)) for a_ in [*c.args, *[k.value for k in c.keywords]]):
+                                immediate = True
+                    key = f"{fi.key}:closure {inner.name if isinstance(inner, ast.FunctionDef) else 'lambda'} in loop"
+                    rep.check(not late or immediate, rid, key, "reads no name bound by the loop (or is consumed within the iteration)",
+                              f"the closure reads {late} - bound anew in every iteration of the loop at line {loop.lineno} - when it is called, not when it is made: all the "
+                              "closures stored by the loop act on the last iteration's value (e.g. the setters of the members of every anonymous structure but "
+                              "the last write into the last one: the assignment is lost)", fi.loc(inner))
+    rep.info["closures_in_loops"] = n
+    # witness: the rule fires on the textbook case
+    w = ast.parse("def f(xs):\n    out = []\n    for x in xs:\n        g = attrgetter(x)\n        def _set(o, v, n=x):\n            setattr(g(o), n, v)\n        out.append(_set)\n    return out\n").body[0]
+    loop = w.body[1]
+    inner = loop.body[1]
+    bound = {x.id for st in loop.body for x in ast.walk(st) if isinstance(x, ast.Name) and isinstance(x.ctx, ast.Store)} | {"x"}
+    params = {a.arg for a in ast.walk(inner.args) if isinstance(a, ast.arg)}
+    free = {x.id for b in inner.body for x in ast.walk(b) if isinstance(x, ast.Name) and isinstance(x.ctx, ast.Load)} - params
+    if (free & bound) - {"_set"} != {"g"}:
+        raise AnalysisError(f"{rid}: the late-binding matcher no longer recognises its witness")
+
+
+def stale_state_rule(repo: Repo, rep: Report, rid: str) -> None:
+    rep.rule(rid, "recomputation is history-free: _update_fields / _calculate_size_and_offsets / commit compute the class dict from the field list and the "
+                  "alignment mode only - they never read an attribute of the class that _update_fields itself derives (size, alignment, dynamic, fields, "
+                  "lookup, generated methods); the compiled flag, carried over by design, and commit's read of __fields__ are the exceptions")
+    uf_fn = repo.func("types/structure.py", "StructureMetaType._update_fields")
+    derived = set()
+    for x in walk_body(uf_fn.node.body):
+        if isinstance(x, ast.Assign) and isinstance(x.targets[0], ast.Subscript) and norm(x.targets[0].value) == "classdict" and is_const(x.targets[0].slice):
+            derived.add(const_value(x.targets[0].slice))
+    if len(derived) < 8:
+        raise AnalysisError(f"{rid}: only {len(derived)} derived attributes found in _update_fields")
+    n = 0
+    for q in ("StructureMetaType._update_fields", "StructureMetaType._calculate_size_and_offsets", "UnionMetaType._calculate_size_and_offsets", "StructureMetaType.commit"):
+        fi = repo.func_opt("types/structure.py", q)
+        if fi is None:
+            continue
+        n += 1
+        allowed = {"__compiled__", "_read"} | ({"__fields__"} if q.endswith(".commit") else set())
+        reads = [x for x in ast.walk(fi.node) if isinstance(x, ast.Attribute) and isinstance(x.ctx, ast.Load) and isinstance(x.value, ast.Name)
+                 and x.value.id == fi.self_name and x.attr in derived - allowed]
+        # getattr(cls, "size", ...) spelled dynamically
+        reads += [c for c in ast.walk(fi.node) if isinstance(c, ast.Call) and call_name(c) == "getattr" and len(c.args) >= 2 and norm(c.args[0]) == fi.self_name
+                  and is_const(c.args[1]) and const_value(c.args[1]) in derived - allowed]
+        rep.check(not reads, rid, f"{fi.key}:no-previous-state", "reads nothing the previous commit derived",
+                  f"{q} reads '{norm(reads[0])[:50] if reads else ''}' - a value the previous commit derived: the layout of an incrementally built structure "
+                  "depends on where the commits fell (e.g. a size that can never shrink below an intermediate state), unlike the one-piece definition",
+                  fi.loc(reads[0]) if reads else fi.loc())
+    rep.floor(rid, "recomputation functions", n, 3)
+
+
+FIELD_ATTRS = ("name", "type", "bits", "offset")
+
+
+def field_copy_rule(repo: Repo, rep: Report, rid: str) -> None:
+    rep.rule(rid, "a Field is never copied partially: a Field(...) built from the attributes of another field (X.name / X._name, X.type) passes X.bits and "
+                  "X.offset as well; the one-piece factories hand their field list to the class unchanged (explicit offsets given by the caller are "
+                  "part of the definition on every path - add_field keeps them)")
+    n = 0
+    for fi in repo.all_functions():
+        for c in ast.walk(fi.node):
+            if not (isinstance(c, ast.Call) and call_name(c) == "Field"):
+                continue
+            n += 1
+            argv = [*c.args, *[k.value for k in c.keywords]]
+            srcs: dict[str, set[str]] = {}
+            for a in argv:
+                for x in ast.walk(a):
+                    if isinstance(x, ast.Attribute) and x.attr in ("name", "_name", "type", "bits", "offset") and isinstance(x.ctx, ast.Load):
+                        srcs.setdefault(norm(x.value), set()).add("name" if x.attr == "_name" else x.attr)
+            for obj, got in srcs.items():
+                if {"name", "type"} <= got:
+                    missing = [a for a in FIELD_ATTRS if a not in got]
+                    rep.check(not missing, rid, f"{fi.key}:copy of {obj}", "all four attributes are carried over",
+                              f"'{short(c, 60)}' copies the field '{obj}' without its {missing}: a field placed at an explicit offset (or a bit-field) is laid out "
+                              "differently in the copy - the one-piece definition and the structure built with add_field disagree", fi.loc(c))
+    rep.floor(rid, "Field constructions", n, 3)
+    for q in ("cstruct._make_struct", "cstruct._make_union"):
+        fi = repo.func_opt("cstruct.py", q)
+        if fi is None:
+            continue
+        rebinds = [x for x in walk_body(fi.node.body) if isinstance(x, (ast.Assign, ast.AugAssign, ast.AnnAssign))
+                   and any(isinstance(t, ast.Name) and t.id == "fields" for t in (x.targets if isinstance(x, ast.Assign) else [x.target]))]
+        bad = [x for x in rebinds if not (isinstance(x, ast.Assign) and norm(x.value) in ("list(fields)", "fields.copy()", "fields[:]", "[*fields]", "fields or []", "list(fields or [])"))]
+        rep.check(not bad, rid, f"{fi.key}:fields-as-given", "the field list reaches the class as the caller gave it (or as a shallow copy)",
+                  f"{q} rebuilds its field list ('{short(bad[0], 60) if bad else ''}'): whatever the rebuilt fields drop is lost for one-piece definitions only", fi.loc(bad[0]) if bad else fi.loc())
+
+
 def run(repo: Repo, rep: Report, tier: str) -> None:
     commit_rule(repo, rep, "C18.R1")
     refresh_rule(repo, rep, "C18.R2")
@@ -395,3 +527,7 @@ def run(repo: Repo, rep: Report, tier: str) -> None:
     from .c04 import layout_fold_rule
 
     layout_fold_rule(repo, rep, "C18.R14", 3 if tier == "thorough" else 2)
+    stale_state_rule(repo, rep, "C18.R15")
+    field_copy_rule(repo, rep, "C18.R16")
+    accessor_fold_rule(repo, rep, "C18.R17")
+    late_binding_rule(repo, rep, "C18.R18")
